@@ -415,6 +415,7 @@ pub struct RefExec<'a> {
     pub executed_kinds: std::collections::BTreeSet<u8>,
     pub loops_iterated: u64,
     pub jumps_taken: u64,
+    pub sig_ok: u64,
 }
 
 enum StepErr {
@@ -443,6 +444,7 @@ impl<'a> RefExec<'a> {
             stack_units: 0,
             total_cap: 1 << 22,
             executed_kinds: Default::default(),
+            sig_ok: 0,
             loops_iterated: 0,
             jumps_taken: 0,
         }
@@ -598,6 +600,7 @@ impl<'a> RefExec<'a> {
                         _ => return Err(StepErr::Fail),
                     };
                     let ok = if sig.len() > 64 { false } else { ed25519_verify(&pk, &msg, &sig) };
+                    self.sig_ok += ok as u64;
                     self.push(int_u128(ok as u128))?;
                 }
             }
